@@ -284,7 +284,7 @@ fn irr(rng: &mut Rng, ctx: &mut Ctx) {
         let hashed = k % 2 == 1;
         let (l0, g) = read_line(&x, false, hashed);
         let mut c = Case::new(read_cmd(false, hashed, &x), l0.clone()); c.tags = tags.clone();
-        let l = l0.replace(&format!("hashed=(some {})", x.len()), "hashed=none");
+        let l = dump::strip_hash(&l0);
         if hashed { if let Some(g) = &g { let xx = format!("xxh3:{:016x}", xxhash_rust::xxh3::xxh3_64(&x)); if g.hash.as_deref() != Some(xx.as_str()) { c.fail("C11", format!("hash {:?} != XXH3-64 of the file {} (replay with unknown events / large payloads)", g.hash, xx)); } } }
         if l != bl { c.fail("C08", format!("game differs from the one parsed without the tolerated irregularities: {} vs {}", &l[..l.len().min(200)], &bl[..bl.len().min(200)])); if what == 2 { c.fail("C17", "permuted frame body changes the parsed game"); } }
         if let (Some(g), Some(bg)) = (&g, &bg) { if start_json(&g.start) != start_json(&bg.start) || end_json(&g.end) != end_json(&bg.end) || g.metadata != bg.metadata { c.fail("C08", "start/end/metadata differ from the regular parse"); }
@@ -303,7 +303,7 @@ fn irr(rng: &mut Rng, ctx: &mut Ctx) {
         if r.end.is_some() && k % 3 == 0 {
             let (sl, sg) = read_line(&x, true, k % 2 == 0); let (bsl, _) = read_line(&base, true, false);
             let mut c = Case::new(read_cmd(true, (k % 2 == 0), &x), sl.clone()); c.tags = vec!["irr-skip".into()];
-            if junk.is_empty() { if sl.replace(&format!("hashed=(some {})", x.len()), "hashed=none") != bsl { c.fail("C08", "skip-frames read differs from the one without the tolerated irregularities"); }
+            if junk.is_empty() { if dump::strip_hash(&sl) != bsl { c.fail("C08", "skip-frames read differs from the one without the tolerated irregularities"); }
                 if let (Some(sg), Some(g)) = (&sg, &g) { if start_json(&sg.start) != start_json(&g.start) || end_json(&sg.end) != end_json(&g.end) || sg.metadata != g.metadata { c.fail("C10", "skip-frames start/end/metadata differ from the full parse (replay with unknown events / permuted bodies)"); } } }
             ctx.push(c);
         }
@@ -334,7 +334,7 @@ pub fn check_c17(g: &Game, y: &[u8], c: &mut Case) {
     if !ok_boundary { c.fail("C17", format!("declared raw length {} does not end at the end of the raw element (file length {})", decl, y.len())); }
     let (l2, g2) = read_line(y, false, false);
     match g2 { None => c.fail("C17", format!("written file cannot be read again: {}", l2)), Some(g2) => {
-        if dump::summary(&g2) != dump::summary(g) || start_json(&g2.start) != start_json(&g.start) || g2.start.bytes != g.start.bytes || end_json(&g2.end) != end_json(&g.end) || g2.metadata != g.metadata || g2.gecko_codes != g.gecko_codes { c.fail("C17", "second read differs in start/end/metadata/gecko/frames"); }
+        if dump::strip_hash(&dump::summary(&g2)) != dump::strip_hash(&dump::summary(g)) || start_json(&g2.start) != start_json(&g.start) || g2.start.bytes != g.start.bytes || end_json(&g2.end) != end_json(&g.end) || g2.metadata != g.metadata || g2.gecko_codes != g.gecko_codes { c.fail("C17", "second read differs in start/end/metadata/gecko/frames"); }
         match write_slp(&g2) { Ok(z) => if z != y { c.fail("C17", "writing the re-read game does not reproduce the written file"); }, Err(e) => c.fail("C17", format!("re-read game cannot be written: {}", e)) } } }
 }
 
@@ -474,7 +474,7 @@ pub fn read_line_chunked(b: &[u8], skip: bool, hash: bool, plan: Vec<usize>) -> 
     let res = std::panic::catch_unwind(|| slippi::read(Chunked::new(b.to_vec(), plan, None), Some(&o)));
     match res { Err(_) => "panic".to_string(), Ok(Err(e)) => format!("err {}", e), Ok(Ok(g)) => {
         match std::panic::catch_unwind(std::panic::AssertUnwindSafe(|| dump::summary(&g))) {
-            Ok(mut s) => { if hash { s = s.replace("hashed=none", &format!("hashed=(some {})", b.len())); } s }
+            Ok(mut s) => { s }
             Err(_) => "panic-in-dump".to_string() } } }
 }
 
@@ -630,7 +630,7 @@ fn frag(rng: &mut Rng, ctx: &mut Ctx) {
         let res = std::panic::catch_unwind(|| slippi::read(Chunked::new(b.clone(), plan.clone(), None), Some(&o)));
         match res { Err(_) => { c.impl_out = "panic".into(); c.fail("C06", "reader panicked under short reads"); }
             Ok(Err(e)) => { c.impl_out = format!("err {}", e); if fg.is_some() { c.fail("C12", format!("read fails under fragmentation {}: {}", pname, e)); c.fail("C11", "read fails under fragmentation"); if skip { c.fail("C10", format!("skip-frames read fails over a stream with short reads ({}): {}", pname, e)); } } }
-            Ok(Ok(g)) => { let mut s = dump::summary(&g); if hash { s = s.replace("hashed=none", &format!("hashed=(some {})", b.len())); } c.impl_out = s.clone();
+            Ok(Ok(g)) => { let mut s = dump::summary(&g); c.impl_out = s.clone();
                 if s != fl { c.fail("C12", format!("game read under fragmentation {} differs from the unfragmented read", pname)); }
                 // the history oracle (spec offsets, presence, rows per frame) on what was read through short reads, hashing on or off
                 if !skip { check_frames(&r, &g, &mut c); }
@@ -643,7 +643,7 @@ fn frag(rng: &mut Rng, ctx: &mut Ctx) {
             let mut src = Chunked::new(b.clone(), plan.clone(), None); src.interrupt_every = 2 + k % 5;
             let res = std::panic::catch_unwind(move || slippi::read(src, Some(&read_opts(skip, hash))));
             let mut ihash: Option<Option<String>> = None;
-            let il = match res { Err(_) => "panic".to_string(), Ok(Err(e)) => format!("err {}", e), Ok(Ok(g)) => { ihash = Some(g.hash.clone()); let mut s = dump::summary(&g); if hash { s = s.replace("hashed=none", &format!("hashed=(some {})", b.len())); } s } };
+            let il = match res { Err(_) => "panic".to_string(), Ok(Err(e)) => format!("err {}", e), Ok(Ok(g)) => { ihash = Some(g.hash.clone()); let mut s = dump::summary(&g); s } };
             let mut c = Case::new(reads_cmd(skip, hash, &plan, &b), il.clone()); c.tags = vec!["eintr-read".into()];
             if let Some(h) = ihash { if hash && h.as_deref() != Some(xx.as_str()) { c.fail("C11", format!("hash over a source interrupted every {} calls (skip={}) is {:?}, XXH3-64 of the file is {}", 2 + k % 5, skip, h, xx)); } if !hash && h.is_some() { c.fail("C11", "hash reported though not requested"); } }
             if il != fl { let m = format!("read over a source interrupted every {} calls differs from the plain read: {} vs {}", 2 + k % 5, &il[..il.len().min(100)], &fl[..fl.len().min(100)]); c.fail("C12", m.clone()); if hash { c.fail("C11", m.clone()); } if skip { c.fail("C10", m.clone()); } c.fail("C06", m); }
